@@ -6,9 +6,25 @@ CONSTANTS ParseLen, LawLen, PartSyms
 LongStrs == {<<L1023>>, <<L1024>>, <<L1022, a>>, <<L1022, EA>>, <<L1023, AT, a>>, <<L1024, AT, a>>,
              <<a, SL, L1023>>, <<a, SL, L1024>>, <<a, SL, L1022, CS>>, <<L1022, CS, AT, a>>,
              <<L1022, FW, AT, a>>, <<a, DOT, L1022>>, <<a, DOT, L1022, DOT>>}
+(* A-label family (second run of the API machine: ParseStrs <- ACEParse, Parts <- ACEMCParts): the A-label in     *)
+(* every case variant of its prefix / of its Punycode digits and the labels that only carry the prefix, alone, as  *)
+(* first / middle / last label, next to ASCII labels, U-labels, other A-labels and final label separators, in      *)
+(* every part of an address                                                                                       *)
+ACENames == {<<x>> : x \in ACESyms}
+            \cup {x \o <<DOT>> \o y : x \in {<<s>> : s \in ACESyms}, y \in {<<a>>, <<UU>>, <<XNU>>}}
+            \cup {y \o <<DOT>> \o x : x \in {<<s>> : s \in ACESyms}, y \in {<<a>>, <<UU>>, <<XNU>>}}
+            \cup {<<a, DOT, s, DOT, UU>> : s \in ACESyms}
+ACEParts == {n \o t : n \in ACENames, t \in {<<>>, <<DOT>>, <<IDS>>}}
+ACEParse == ACEParts \cup {<<XNU, AT>> \o n \o <<SL, XNM>> : n \in {<<XNU>>, <<XNm, DOT, a>>, <<UU, DOT, XNT>>, <<XNBAD>>, <<XNU, DOT>>}}
+ACEMCParts == {<<>>, <<a>>, <<XNU, DOT, UA>>, <<a, DOT, XNM>>, <<UU, DOT, XNm, DOT>>, <<XNT, IDS>>, <<XN>>, <<XNU>>} \cup {<<x>> : x \in ACEFree}
 MCParseStrs == StrsOf(Core, ParseLen) \cup LongStrs
 MCParts == StrsOf(PartSyms, 1) \cup {<<L1024>>, <<a, DOT>>, <<a, DOT, DOT>>, <<a, IDS>>, <<XN, DOT, UA>>}
-ASSUME CanonFixedOn(StrsOf(Core, LawLen) \cup LongStrs)
-ASSUME SplitAssembleOn(StrsOf(Core, LawLen))
-ASSUME PrintT(<<"LAWS", Cardinality(StrsOf(Core, LawLen))>>)
+ASSUME CanonFixedOn(StrsOf(Core, LawLen) \cup LongStrs \cup ACEParse)
+ASSUME SplitAssembleOn(StrsOf(Core, LawLen) \cup ACEParse)
+(* every case variant of the A-label is claimed to denote the U-label, wherever the label stands *)
+ASSUME \A x \in ACECase \cup {XN} : /\ ClsParse(<<x>>) = "ok" /\ CanonParse(<<x>>) = <<UU>>
+                                    /\ CanonParse(<<a, DOT, x, DOT, UU>>) = <<a, DOT, UU, DOT, UU>>
+                                    /\ CanonParse(<<x, AT, x, DOT, SL, x>>) = <<XN, AT, UU, SL, x>>
+ASSUME \A x \in ACEFree : ClsParse(<<x>>) = "free" /\ ClsParse(<<a, DOT, x>>) = "free" /\ ClsParse(<<x, AT, a>>) = "ok"
+ASSUME PrintT(<<"LAWS", Cardinality(StrsOf(Core, LawLen)), Cardinality(ACEParse)>>)
 =============================================================================
